@@ -121,13 +121,14 @@ open C04D in
 def dispatchC04 : List Str → Option (List Str)
   | cmd :: args =>
     if cmd == "c04.run".toList then
-      -- c04.run <variant> <m|s> stmt*      (variant letter `g`: generic-spec keys lose their blanks)
+      -- c04.run <variant> <m|s> stmt*      (variant letter `g`: generic-spec keys lose their blanks; `i`: access
+      -- statements reach the short-form bodies of separate module procedures)
       -- fields `H:name:perm` (host interface bodies) and `M:name` (short-form implementations) may stand among them
       match args with
       | v :: scope :: fields =>
         match (fields.filter (fun f => !isHost f)).mapM xstmtOf, (fields.filter isHost).mapM hostOf with
         | some xs, some host =>
-          let r := runX (variantOf v) (v.contains 'g') (scope == ['s']) host xs
+          let r := runXI (variantOf v) (v.contains 'g') (scope == ['s']) (v.contains 'i') host xs
           some ("ok".toList :: showOut r.out ++ r.impls.map (fun k => colon [['M'], k.name, permName k.perm]))
         | _, _ => some ["bad-request".toList]
       | _ => some ["bad-request".toList]
